@@ -79,7 +79,7 @@ func (c *Ctx) verifySummaries(rule string) bool {
 		tr := an.NewTracer()
 		for _, cs := range an.Calls(f) {
 			if cs.Common.IsInvoke() && cs.Common.Method.Name() == "Write" && len(cs.Common.Args) == 1 {
-				if o := tr.OriginString(cs.Common.Args[0]); strings.HasPrefix(o, "param#0[") {
+				if o := tr.OriginString(cs.Common.Args[0]); o == "param#0[_]" { // an element of the parameter itself, not of a sub-slice
 					writesElem = true
 				}
 			}
@@ -260,13 +260,7 @@ func (c *Ctx) keySchedule(rule string) {
 		x      int64
 	}{{"client-to-server", "false", 0}, {"server-to-client", "true", 8}} {
 		x := dir.x
-		sub := func(off, n int64) *an.T { return tslice(ak, off+x, off+x+n) }
-		a := tsha1(mk, sub(0, 32))
-		b := tsha1(sub(32, 16), mk, sub(48, 16))
-		cc := tsha1(sub(64, 32), mk)
-		d := tsha1(mk, sub(96, 32))
-		wantKey := tcat(tslice(a, 0, 8), tslice(b, 8, 20), tslice(cc, 4, 16))
-		wantIV := tcat(tslice(a, 8, 20), tslice(b, 0, 8), tslice(cc, 16, 20), tslice(d, 0, 8))
+		wantKey, wantIV := specAESKeyIV(mk, ak, x)
 		e := c.termEval([]string{"msg_key", "auth_key", "decode"}, map[int]*an.T{2: an.Sym(dir.decode)})
 		res, ok := e.Eval(f)
 		var gk, gi *an.T
@@ -275,6 +269,64 @@ func (c *Ctx) keySchedule(rule string) {
 		}
 		c.compareTerm(rule, "key-schedule:"+dir.name+"/aes_key", c.pos(f.Pos()), gk, wantKey, "aes_key ("+dir.name+", x="+sprintf("%d", x)+")")
 		c.compareTerm(rule, "key-schedule:"+dir.name+"/aes_iv", c.pos(f.Pos()), gi, wantIV, "aes_iv ("+dir.name+", x="+sprintf("%d", x)+")")
+	}
+}
+
+func specAESKeyIV(mk, ak *an.T, x int64) (key, iv *an.T) {
+	sub := func(off, n int64) *an.T { return tslice(ak, off+x, off+x+n) }
+	a := tsha1(mk, sub(0, 32))
+	b := tsha1(sub(32, 16), mk, sub(48, 16))
+	cc := tsha1(sub(64, 32), mk)
+	d := tsha1(mk, sub(96, 32))
+	return tcat(tslice(a, 0, 8), tslice(b, 8, 20), tslice(cc, 4, 16)), tcat(tslice(a, 8, 20), tslice(b, 0, 8), tslice(cc, 16, 20), tslice(d, 0, 8))
+}
+
+// cipherKeying: the cipher of each wrapper is created with the key and IV the schedule gives for that wrapper's
+// direction and message key (Encrypt: msg_key = SHA1(plaintext)[4:20] of the unpadded message, x = 0; Decrypt: the
+// packet's msg_key, x = 8; the temp-key wrappers: tmp_aes_key / tmp_aes_iv of their two nonces).
+func (c *Ctx) cipherKeying(rule string, temp bool) {
+	type w struct {
+		fn     string
+		params []string
+		key    *an.T
+		iv     *an.T
+	}
+	var ws []w
+	if !temp {
+		k0, i0 := specAESKeyIV(tslice(tsha1(an.Sym("$msg")), 4, 20), an.Sym("$key"), 0)
+		k8, i8 := specAESKeyIV(an.Sym("$msg_key"), an.Sym("$key"), 8)
+		ws = []w{{"Encrypt", []string{"msg", "key"}, k0, i0}, {"Decrypt", []string{"msg", "key", "msg_key"}, k8, i8}}
+	} else {
+		nn := an.Fn("fixed", an.Sym("$new_nonce"), an.Num(32))
+		sn := an.Fn("fixed", an.Sym("$server_nonce"), an.Num(16))
+		tk := tcat(tsha1(nn, sn), tslice(tsha1(sn, nn), 0, 12))
+		ti := tcat(tslice(tsha1(sn, nn), 12, 20), tsha1(nn, nn), tslice(nn, 0, 4))
+		ws = []w{{"EncryptMessageWithTempKeys", []string{"msg", "new_nonce", "server_nonce"}, tk, ti}, {"DecryptMessageWithTempKeys", []string{"msg", "new_nonce", "server_nonce"}, tk, ti}}
+	}
+	name := load.IgePkg + ".NewCipher"
+	for _, x := range ws {
+		f := c.fn(rule, load.IgePkg, "", x.fn)
+		if f == nil {
+			continue
+		}
+		e := c.termEval(x.params, nil)
+		e.WatchCalls[name] = true
+		e.Eval(f) // the wrappers with a strip loop are evaluated with the loop opaque; the keying precedes it
+		var gk, gi *an.T
+		pos := c.pos(f.Pos())
+		n := 0
+		for _, sc := range e.Seen {
+			if sc.Name == name && len(sc.Args) == 2 {
+				gk, gi, pos = sc.Args[0], sc.Args[1], c.pos(sc.Pos)
+				n++
+			}
+		}
+		if n != 1 {
+			c.R.Undecide(rule, "cipher-keying:"+x.fn, pos, sprintf("expected one NewCipher(key, iv) call in %s, found %d", x.fn, n))
+			continue
+		}
+		c.compareTerm(rule, "cipher-keying:"+x.fn+"/key", pos, gk, x.key, "cipher key of "+x.fn)
+		c.compareTerm(rule, "cipher-keying:"+x.fn+"/iv", pos, gi, x.iv, "cipher IV of "+x.fn)
 	}
 }
 
